@@ -663,7 +663,7 @@ FIXED_CLEAN = [
     "CREATE VIRTUAL TABLE [f3] USING \"fts4\"(x, tokenize=unicode61 \"separators=/\")",
     "CREATE VIRTUAL TABLE s1 USING dbstat(main)",
 ]
-# one statement per open finding (the minimal inputs; also in corpus/C07)
+# one statement per open finding that shows on these rows (the minimal inputs; also in corpus/C07)
 FIXED_FINDINGS = [
     ("CREATE INDEX i ON t (a/2)", ["expr:slash"]),
     ("CREATE VIRTUAL TABLE v USING fts3(a/b)", ["expr:slash"]),
@@ -672,11 +672,20 @@ FIXED_FINDINGS = [
     ("CREATE INDEX \"\" ON t (a)", ["name:empty"]),
     ("CREATE VIEW \"\" AS SELECT 1", ["name:empty"]),
     ("CREATE TRIGGER \"\" AFTER INSERT ON t BEGIN SELECT 1; END", ["name:empty"]),
-    ("CREATE INDEX i /* c */ ON t (a)", ["cmt:before-on"]),
-    ("CREATE INDEX i ON /* c */ t (a)", ["cmt:after-on"]),
-    ("CREATE INDEX i ON t (a) -- c", ["trail:line-comment-unterminated"]),
-    ("CREATE INDEX i ON t (a) /* c", ["trail:block-comment-unterminated"]),
-    ("CREATE VIRTUAL TABLE v USING dbstat", ["virtual:no-args"]),
+]
+# the witnesses of the repaired findings C07-20, C07-21, C07-22 (also in corpus/C07): accepted now
+FIXED_REPAIRED = [
+    "CREATE TABLE t (a, b, c)",
+    "CREATE INDEX r1 /* c */ ON t (a)",
+    "CREATE INDEX r2--c\nON t (a)",
+    "CREATE INDEX r3 ON /* c */ -- d\n t (a)",
+    "CREATE INDEX \"r 4\"/*c*/on/*d*/[t]/*e*/(b)/*f*/where b",
+    "CREATE INDEX r5 ON t (a) -- c",
+    "CREATE INDEX r6 ON t (b) /* c",
+    "CREATE UNIQUE INDEX r7 ON t (c) /* c */ -- d",
+    "CREATE VIRTUAL TABLE v1 USING dbstat",
+    "CREATE VIRTUAL TABLE v2 USING fts3",
+    "CREATE VIRTUAL TABLE \"v 3\" /* c */ USING -- d\n \"fts4\"",
 ]
 
 
@@ -687,7 +696,11 @@ def check_statements(ctx, run, texts, tags, enc="UTF-8"):
     if len(done) != len(texts):
         ctx.notes.append("SQLite rejected a fixed statement: " + repr([t for t in texts if t not in done])[:200])
     if v is not None:
-        ctx.oracle_fail(v[0], v[1], {"rows_statements": texts, "tags": sorted(tags)}, v[2], v[3])
+        what = v[1]
+        if len(texts) == 2:
+            # (a base table and one statement: name the statement's kind, so that different row classes are reported apart)
+            what += " - " + " ".join(w for w in texts[1].split()[:4] if w.upper() in ("CREATE", "UNIQUE", "INDEX", "VIEW", "TRIGGER", "VIRTUAL", "TABLE"))
+        ctx.oracle_fail(v[0], what, {"rows_statements": texts, "tags": sorted(tags)}, v[2], v[3])
     return v
 
 
@@ -767,6 +780,8 @@ def section(ctx, n=None):
         for enc in F.ENCODINGS:
             v = check_statements(ctx, run, FIXED_CLEAN, ["fixed-clean"], enc)
             ctx.branch("rows:fixed-clean:" + ("agrees" if v is None else "differs"))
+        v = check_statements(ctx, run, FIXED_REPAIRED, ["fixed-repaired"])
+        ctx.branch("rows:fixed-repaired:" + ("agrees" if v is None else "differs"))
         for text, tags in FIXED_FINDINGS:
             check_statements(ctx, run, ["CREATE TABLE t (a, b, c)", text], tags)
             ctx.branch("rows:fixed-finding")
@@ -846,7 +861,4 @@ MATCHERS = {
     "c07_rows_slash": lambda f: _explained(f, {"expr:slash"}),
     "c07_rows_ident_whitespace": lambda f: _explained(f, {"name:ws-run"}),
     "c07_rows_empty_name": lambda f: _explained(f, {"name:empty"}),
-    "c07_index_comment_around_on": lambda f: _explained(f, {"cmt:before-on", "cmt:after-on"}),
-    "c07_index_unterminated_trailing_comment": lambda f: _explained(f, {"trail:line-comment-unterminated", "trail:block-comment-unterminated"}),
-    "c07_virtual_no_arguments": lambda f: _explained(f, {"virtual:no-args"}),
 }
